@@ -28,4 +28,33 @@ PROPS = {
         "trusted_base": [TB_URL, TB_HTTP, "base64 crate (BASE64_STANDARD) modelled in Model/Base64.lean, compared after decoding"],
         "assumptions": ["server-side recovery = strip 'Basic ', base64-decode, split at first ':', form-decode both halves"],
     },
+    "C09": {
+        "lean": ["OAuth2Model.Props.C09"],
+        "lean_deps": ["OAuth2Model.Driver.Adapter"],
+        "theorems": ["C09.glue_ok", "C09.glue_success_exact", "C09.glue_error", "C09.C09_transparent",
+                     "C09.C09_transparent_partial", "C09.C09_pinned_ureq_ge400", "C09.C09_pinned_not_transparent",
+                     "C09.C09_same_class", "C09.C09_same_class_partial", "C09.C09_faults", "C09.C09_success_exact",
+                     "C09.C09_request", "C09.C09_request_of_build"],
+        "custom": ["adapters_c09"],
+        "signatures": ["C09:"],
+        "level": "proof",
+        "explanation": "PARTIAL proof. Proved (kernel-checked): the adapter glue of src/{reqwest,curl,ureq}_client.rs as modelled in "
+                       "Model/Adapter.lean (engine result -> HttpResponse | error, HttpRequest -> engine request) and its composition "
+                       "with ASSUMED engine contracts `lib`/`wire`, for both the pinned ureq glue (C09_transparent_partial, "
+                       "C09_pinned_not_transparent = finding F4) and the repaired one (C09_transparent). NOT proved, only sampled by "
+                       "loopback runs of the four real adapters against a scripted raw-socket server: HTTP/1.1 framing by "
+                       "hyper/reqwest, libcurl and ureq, sockets, timing. Each run is judged twice: by a model-free oracle "
+                       "(transparency computed from the script) and against the Lean model through driver op `adp`, which also "
+                       "reports which glue version the checked tree behaves as.",
+        "rule": "see coverage.adapters_c09.rule",
+        "trusted_base": ["reqwest 0.12 / hyper 1, libcurl 8 (curl 0.4), ureq 2.12: assumed contracts `lib` and `wire` of "
+                         "Model/Adapter.lean, validated by sampling only",
+                         "hand-written model lean/OAuth2Model/Model/Adapter.lean of the three adapter source files",
+                         "scripted loopback HTTP/1.1 server and request parser in harness/src/bin/adapters.rs; the OS loopback interface"],
+        "assumptions": ["reqwest clients are built with redirect(Policy::none()) and ureq agents with redirects(0), as the crate's "
+                        "documentation instructs (reqwest's and ureq's defaults WOULD follow a 302); the property's redirect clause speaks about curl only",
+                        "well-formed reply = 3-digit status (100..=999) and a Content-Type value acceptable to HeaderValue::from_str; at most one Content-Type header",
+                        "requests are the POST requests the library builds (header values visible ASCII: C02_header_safe); "
+                        "the all-byte-values request body is sent through the same envelope by replacing the body of a library-built request"],
+    },
 }
